@@ -40,6 +40,7 @@ class Walker:
         self.paths = []
         self.truncated = False
         self.unroll = unroll   # a block may appear this many times on a path (2 = one loop iteration, then exit)
+        self.force_opaque = None   # optional hook: call terminator -> name; treated as an opaque boolean even if it is a comparison call
 
     # --- symbolic values
     def role(self, op):
@@ -168,7 +169,12 @@ class Walker:
             env2 = env
             dest = place_str(t["dest"])
             name = None
-            for cn, sym in CMP_CALLS.items():
+            forced = self.force_opaque(t) if self.force_opaque else None
+            if forced:
+                env2 = dict(env)
+                env2[dest] = ("opaque", forced)
+                name = forced
+            for cn, sym in (CMP_CALLS.items() if not forced else ()):
                 if callee_is(t, cn) and len(t["args"]) == 2:
                     env2 = dict(env)
                     env2[dest] = self.cmp_atom(sym, t["args"][0], t["args"][1])
